@@ -251,14 +251,22 @@ func TestExhaustive(t *testing.T) {
 }
 
 // drawCase is the rapid generator.
-func drawCase(t *rapid.T) *Case {
+func drawCase(t *rapid.T) *Case { return drawCaseOpt(t, false) }
+
+// drawCaseOpt: with separated set, the sizes are large enough for tails below 1e-6 and the
+// samples are (nearly) separated.
+func drawCaseOpt(t *rapid.T, separated bool) *Case {
 	tieStyle := rapid.SampledFrom([]int{0, 0, 1, 2, 3, 4, 4}).Draw(t, "tieStyle")
 	lim := 25
 	if tieStyle == 0 {
 		lim = 50
 	}
 	var n1, n2 int
-	switch rapid.SampledFrom([]string{"tiny", "tiny", "small", "small", "one-sided", "mid", "limit"}).Draw(t, "size") {
+	sizes := []string{"tiny", "tiny", "small", "small", "one-sided", "mid", "limit"}
+	if separated {
+		sizes = []string{"mid", "mid", "limit"}
+	}
+	switch rapid.SampledFrom(sizes).Draw(t, "size") {
 	case "tiny":
 		n1, n2 = rapid.IntRange(1, 4).Draw(t, "n1"), rapid.IntRange(1, 4).Draw(t, "n2")
 	case "small":
@@ -316,6 +324,24 @@ func drawCase(t *rapid.T) *Case {
 	}
 	// choose which n1 of the pooled values form sample 1
 	perm := gen.Perm(t, N, "split")
+	if sep := rapid.IntRange(0, 3).Draw(t, "separated"); (sep == 0 || separated) && N >= 4 {
+		// (nearly) separated samples: sample 1 takes the largest (or smallest) values, up to a
+		// few exchanges - U near an end of its range, where the tails are tiny
+		for i := range perm {
+			perm[i] = N - 1 - i
+		}
+		if rapid.Bool().Draw(t, "lowEnd") {
+			for i := range perm {
+				perm[i] = i
+			}
+		}
+		for k := rapid.IntRange(0, 4).Draw(t, "exchanges"); k > 0; k-- {
+			i, j := rapid.IntRange(0, n1-1).Draw(t, "xi"), rapid.IntRange(n1, N-1).Draw(t, "xj")
+			if i < N && j < N {
+				perm[i], perm[j] = perm[j], perm[i]
+			}
+		}
+	}
 	c := &Case{Alt: rapid.IntRange(-1, 1).Draw(t, "alt")}
 	for i, p := range perm {
 		if i < n1 {
@@ -388,6 +414,16 @@ func TestRandom(t *testing.T) {
 	ev.Rule(rule)
 	ev.Rapid(t, "c01-random", 2000, 24000, func(rt *rapid.T) {
 		checkMWU.Run(rt, drawCase(rt))
+	})
+}
+
+// TestSeparated: (nearly) separated samples of medium and limit sizes, where one tail is tiny
+// (1e-6 and far below) - the region in which an upper tail computed as 1-CDF loses all relative
+// accuracy and shortcuts through symmetry are tempting.
+func TestSeparated(t *testing.T) {
+	ev.Rule(rule)
+	ev.Rapid(t, "c01-separated", 3000, 24000, func(rt *rapid.T) {
+		checkMWU.Run(rt, drawCaseOpt(rt, true))
 	})
 }
 
